@@ -1,4 +1,137 @@
-/-! native driver `C15` (stub; replaced by the area's real driver) -/
+import PPLV.Dump.ProofsLex
+
+/-! native driver `pplv_c15`: reads the journal of `harness/c15_dumpload.cc` on stdin and checks, for every
+harvested piece of real `ascii_dump` text, that the Lean loader of `PPLV/Dump/Model.lean` accepts it, that the
+Lean printer reproduces it byte for byte, and — for status lines — that the status loader over the table
+regenerated from the sources predicts the flags the real `ascii_load` left in a receiver with prior flags.
+Verdicts: `ok <line>` / `MISMATCH <line> <obligation> <detail>`; first an `info` line about the tables. -/
+open PPLV.Dump
+
+namespace C15Driver
+
+def unesc : List Char → List Char
+  | '\\' :: 'n' :: r => '\n' :: unesc r
+  | '\\' :: 'p' :: r => '|' :: unesc r
+  | '\\' :: '\\' :: r => '\\' :: unesc r
+  | c :: r => c :: unesc r
+  | [] => []
+
+def raw (s : String) : List Char := unesc s.toList
+def show' (l : List Char) : String := (String.ofList l).replace "\n" "\\n"
+
+/-- flags of a real status text: what the loader makes of it starting from no flags; the text must be what
+the printer writes for these flags -/
+def parseStatus (t : Table) (txt : List Char) : Except String Nat :=
+  match loadStatus t 0 (words txt) with
+  | some (f, []) =>
+    if dumpStatus t f = txt then .ok f
+    else .error s!"print_exact printer gives [{show' (dumpStatus t f)}] for [{show' txt}]"
+  | some (_, _ :: _) => .error s!"parse trailing words in [{show' txt}]"
+  | none => .error s!"parse loader rejects [{show' txt}]"
+
+def checkSt (cls : String) (prior text result : String) : Except String Unit := do
+  let some c := StatusClass.ofName cls | .error s!"class unknown {cls}"
+  let t := c.table
+  let pf ← parseStatus t (raw prior)
+  let _ ← parseStatus t (raw text)
+  let rf ← parseStatus t (raw result)
+  match loadStatus t pf (words (raw text)) with
+  | some (f, []) =>
+    if f = rf then .ok () else .error s!"load_model model leaves flags {f}, real ascii_load left {rf} (receiver {pf})"
+  | _ => .error "load_model model loader rejects the text"
+
+def checkHdr (text : String) : Except String Unit :=
+  match LinSysHeader.load (raw text) with
+  | some h => if h.dump = raw text then .ok () else .error s!"print_exact [{show' h.dump}] vs [{text}]"
+  | none => .error s!"parse header rejected [{text}]"
+
+def checkBm (text : String) : Except String Unit :=
+  match BitMatrix.load (raw text) with
+  | some m =>
+    if !m.valid then .error "parse invalid shape"
+    else if m.dump = raw text then .ok () else .error s!"print_exact [{show' m.dump}] vs [{text}]"
+  | none => .error s!"parse bit matrix rejected [{text}]"
+
+def checkShaped (C : Codec) (sh : Shape) (text : String) : Except String Unit :=
+  match ShapedMatrix.load C sh (raw text) with
+  | some m =>
+    if !m.valid sh then .error "parse invalid shape"
+    else if m.dump = raw text then .ok () else .error s!"print_exact [{show' m.dump}] vs [{text}]"
+  | none => .error s!"parse matrix rejected [{text}]"
+
+def checkMatrix (sh : Shape) (ty text : String) : Except String Unit := do
+  checkShaped wordCodec sh text
+  if ty = "mpz" then checkShaped extIntCodec sh text
+
+def checkBox (prior dumpTxt result : String) : Except String Unit := do
+  let t := StatusClass.table .box
+  let pf ← parseStatus t (raw prior)
+  let rf ← parseStatus t (raw result)
+  let d := raw dumpTxt
+  -- the text itself: accepted, and reproduced by the printer
+  match loadBox wordCodec t ⟨0, []⟩ d with
+  | none => .error s!"parse box rejected [{dumpTxt}]"
+  | some b0 =>
+    if dumpBox wordCodec t b0 ≠ d then .error s!"print_exact [{show' (dumpBox wordCodec t b0)}] vs [{dumpTxt}]"
+    else
+      -- the loader as written, into the receiver's flags
+      match loadBox wordCodec t ⟨pf, []⟩ d with
+      | none => .error "load_model box rejected"
+      | some b =>
+        if b.flags = rf then .ok ()
+        else .error s!"load_model model leaves flags {b.flags}, real Box::ascii_load left {rf} (receiver {pf})"
+
+def enumKw (kind : String) : Option (List Word) :=
+  match kind with
+  | "mip_status" => some mipStatusKw
+  | "mip_pricing" => some mipPricingKw
+  | "opt_mode" => some optModeKw
+  | "yes_no" => some yesNoKw
+  | "pip_status" => some pipStatusKw
+  | "pip_control" => some pipControlKw
+  | _ => none
+
+def checkEnum (kind word : String) : Except String Unit :=
+  match enumKw kind with
+  | none => .error s!"class unknown enumeration {kind}"
+  | some ks =>
+    match enumLoad ks word.toList with
+    | some v => if enumDump ks v = word.toList then .ok () else .error "print_exact keyword"
+    | none => .error s!"parse keyword {word} not in the table of {kind}"
+
+def switchStr (c : StatusClass) : String :=
+  match c.switch with
+  | some true => "as_written_round0"
+  | some false => "repaired"
+  | none => "other"
+
+def checkLine (line : String) : Option (Except String Unit) :=
+  match line.splitOn "|" with
+  | ["st", cls, _, prior, text, result] => some (checkSt cls prior text result)
+  | ["hdr", text] => some (checkHdr text)
+  | ["bm", text] => some (checkBm text)
+  | ["dbm", ty, text] => some (checkMatrix dbShape ty text)
+  | ["orm", ty, text] => some (checkMatrix orShape ty text)
+  | ["box", _, prior, d, result] => some (checkBox prior d result)
+  | ["enum", kind, word] => some (checkEnum kind word)
+  | _ => none
+
+partial def loop (h : IO.FS.Stream) (n ok bad : Nat) : IO (Nat × Nat) := do
+  let line ← h.getLine
+  if line.isEmpty then return (ok, bad)
+  let l := if line.endsWith "\n" then (line.dropEnd 1).toString else line
+  match checkLine l with
+  | none => loop h (n + 1) ok bad
+  | some (.ok ()) => IO.println s!"ok {n}"; loop h (n + 1) (ok + 1) bad
+  | some (.error e) => IO.println s!"MISMATCH {n} {e}"; loop h (n + 1) ok (bad + 1)
+
+end C15Driver
+
 def main (_args : List String) : IO UInt32 := do
-  IO.println "stub"
+  let tabs := StatusClass.all.map fun c =>
+    s!"{c.name}={C15Driver.switchStr c},wf={WF c.table},noclear={(noClearBits c.table).length}"
+  IO.println ("info tables " ++ " ".intercalate tabs)
+  let stdin ← IO.getStdin
+  let (ok, bad) ← C15Driver.loop stdin 1 0 0
+  IO.println s!"summary ok={ok} mismatch={bad}"
   return 0
